@@ -6,7 +6,8 @@ import gen
 import ref
 import pipeline
 from harness import Part, Violation, Discard, guarded
-from bycycle.features import compute_shape_features
+from bycycle.features import compute_shape_features, compute_features
+from bycycle.utils import rename_extrema_df
 
 ID = 'C04'
 TITLE = 'Shape features equal their documented definitions'
@@ -32,7 +33,7 @@ TRUSTED = ['numpy', 'pandas', 'neurodsp.timefrequency.amp_by_time']
 @st.composite
 def strategy(draw, tier):
     case = draw(gen.st_analysis_case())
-    case['via'] = draw(st.sampled_from(['features', 'features', 'features', 'shape']))
+    case['via'] = draw(st.sampled_from(['features', 'features', 'features', 'shape', 'rename', 'buffer']))
     return case
 
 
@@ -82,7 +83,33 @@ def check(case, rec):
     rs = case.get('return_samples', True)
     if case['method'] == 'amp':
         pipeline.trusted_burst_mask(case, x)
-    if case['via'] == 'shape':
+    if case['via'] == 'rename':
+        # the documented manual route to a trough-centred table: analyse -sig peak-centred, then rename_extrema_df('trough', ...)
+        import warnings
+        case = dict(case, center='trough')
+        kw = gen.cf_kwargs(dict(case, center='peak'))
+        with warnings.catch_warnings():
+            warnings.simplefilter('ignore')
+            df_s = guarded(rename_extrema_df, 'trough', guarded(compute_features, -x, case['fs'], tuple(case['f_range']), **dict(kw, return_samples=True)))
+            if rs:
+                df = df_s
+            else:
+                df = guarded(rename_extrema_df, 'trough', guarded(compute_features, -x, case['fs'], tuple(case['f_range']), **dict(kw, return_samples=False)),
+                             return_samples=False)
+    elif case['via'] == 'buffer':
+        # one array object refilled in place between two analyses (acquisition buffer): the second table must describe the new contents
+        import warnings
+        buf = np.array(x[::-1], copy=True)
+        with warnings.catch_warnings():
+            warnings.simplefilter('ignore')
+            try:
+                compute_features(buf, case['fs'], tuple(case['f_range']), **gen.cf_kwargs(case, return_samples=True))
+            except Exception:  # noqa - the reversed recording need not be analysable; only the second call is judged
+                pass
+            buf[:] = x
+            df_s = guarded(compute_features, buf, case['fs'], tuple(case['f_range']), **gen.cf_kwargs(case, return_samples=True))
+        df = df_s
+    elif case['via'] == 'shape':
         df_s = guarded(compute_shape_features, x.copy(), case['fs'], tuple(case['f_range']), center_extrema=case['center'],
                        find_extrema_kwargs=gen.copy_json(case.get('fek')))
         df = df_s
